@@ -77,7 +77,12 @@ DPattern(D, S) == {<<RankSet(S, e[1]), RankSet(S, e[2])>> : e \in {e \in D : DNo
 DRelabel(f, P) == {<<{f[n] : n \in e[1]}, {f[n] : n \in e[2]}>> : e \in P}
 DOrbit(P, k) == {DRelabel(f, P) : f \in Perms(k)}
 
-\* sorted-tuple encoding and its order: tuples compare position by position, a proper prefix is smaller
+\* every directed hyperedge over 1..k
+DEdgeU(k) == {p \in (SUBSET (1..k) \ {{}}) \X (SUBSET (1..k) \ {{}}) : p[1] \cap p[2] = {}}
+
+(* The "sorted tuple" encoding of a pattern and its order.  A hyperedge is the pair   *)
+(* <<sorted sources, sorted targets>>, a pattern the sorted tuple of its hyperedges;  *)
+(* tuples compare position by position and a proper prefix is smaller.                *)
 RECURSIVE SortedTuple(_)
 SortedTuple(A) == IF A = {} THEN <<>> ELSE LET m == Min(A) IN <<m>> \o SortedTuple(A \ {m})
 TupLess(a, b) == \E i \in 1..Len(b) : /\ i - 1 <= Len(a)
@@ -86,17 +91,37 @@ TupLess(a, b) == \E i \in 1..Len(b) : /\ i - 1 <= Len(a)
 EdgeEnc(e) == <<SortedTuple(e[1]), SortedTuple(e[2])>>
 EncLess(a, b) == TupLess(a[1], b[1]) \/ (a[1] = b[1] /\ TupLess(a[2], b[2]))
 EdgeLess(e, g) == EncLess(EdgeEnc(e), EdgeEnc(g))
-RECURSIVE SortedEdges(_)
-SortedEdges(P) == IF P = {} THEN <<>>
-                  ELSE LET m == CHOOSE e \in P : \A g \in P \ {e} : EdgeLess(e, g) IN <<m>> \o SortedEdges(P \ {m})
-PatEnc(P) == LET s == SortedEdges(P) IN [i \in DOMAIN s |-> EdgeEnc(s[i])]
+RECURSIVE SortEnc(_)
+SortEnc(E) == IF E = {} THEN <<>>
+              ELSE LET x == CHOOSE a \in E : TRUE
+                       s == SortEnc(E \ {x})
+                       n == Cardinality({i \in DOMAIN s : EncLess(s[i], x)})
+                   IN SubSeq(s, 1, n) \o <<x>> \o SubSeq(s, n + 1, Len(s))
+PatEnc(P) == SortEnc({EdgeEnc(e) : e \in P})
 SeqLess(p, q) == \E i \in 1..Len(q) : /\ i - 1 <= Len(p)
                                       /\ \A j \in 1..(i - 1) : p[j] = q[j]
                                       /\ (Len(p) = i - 1 \/ EncLess(p[i], q[i]))
 PatLess(P, Q) == SeqLess(PatEnc(P), PatEnc(Q))
+\* THE definition: no relabelling of P has a smaller encoding
+IsCanonicalDef(P, k) == LET p == PatEnc(P) IN \A f \in Perms(k) : ~SeqLess(PatEnc(DRelabel(f, P)), p)
 
-IsCanonical(P, k) == LET p == PatEnc(P) IN \A f \in Perms(k) : ~SeqLess(PatEnc(DRelabel(f, P)), p)
-Canon(P, k) == CHOOSE Q \in DOrbit(P, k) : IsCanonical(Q, k)
+(* The same order through integers (what the exploration and Canon use; MC_Motifs has *)
+(* TLC establish that it is the order above).  A sorted tuple over 1..k is read as a  *)
+(* k-digit number in base k+1, padded with zeros on the right (so a prefix is         *)
+(* smaller); two patterns OF THE SAME SIZE compare as their ascending code sequences, *)
+(* i.e. by who owns the least code they do not share.                                 *)
+RECURSIVE Pow(_, _)
+Pow(b, n) == IF n = 0 THEN 1 ELSE b * Pow(b, n - 1)
+TupCode(A, k) == LET F(n) == n * Pow(k + 1, k - Rank(A, n)) IN SumSet(F, A)
+EdgeCode(e, k) == TupCode(e[1], k) * Pow(k + 1, k) + TupCode(e[2], k)
+ECode3 == [e \in DEdgeU(3) |-> EdgeCode(e, 3)]
+ECode4 == [e \in DEdgeU(4) |-> EdgeCode(e, 4)]
+Codes(P, k) == IF k = 3 THEN {ECode3[e] : e \in P} ELSE IF k = 4 THEN {ECode4[e] : e \in P}
+               ELSE {EdgeCode(e, k) : e \in P}
+CodeLess(A, B) == LET d == (A \ B) \cup (B \ A) IN d # {} /\ Min(d) \in A
+IsCanonical(P, k) == LET c == Codes(P, k) IN \A f \in Perms(k) : ~CodeLess(Codes(DRelabel(f, P), k), c)
+Canon(P, k) == LET orb == DOrbit(P, k)  cd == [Q \in orb |-> Codes(Q, k)]
+               IN CHOOSE Q \in orb : \A R \in orb : ~CodeLess(cd[R], cd[Q])
 
 DOcc(D, U, k, P) == LET orb == DOrbit(P, k) IN {S \in KSubsets(U, k) : DPattern(D, S) \in orb}
 \* node sets the directed enumeration looks at (anchors): a k-node hyperedge, or (k = 4) a 3-node
